@@ -34,6 +34,11 @@ def _is_snapshot(e):
 
 def rules(ctx):
     P, R = ctx.prog, ctx.res
+    ctx.rule('R05.9', "squash_key sorts labels with ordering_key on every path (one canonical key per term for every mix of label types)", floor=2)
+    canonical_order(ctx, 'R05.9')
+    from .C14 import no_module_state
+    ctx.rule('R05.8', "no function writes module-level state (memo / registry): results independent of earlier calls", floor=1)
+    no_module_state(ctx, 'R05.8')
     from .C14 import derived_fields
     ctx.rule('R05.7', "a field of model objects outside the frozen bookkeeping fields that is written together with the terms / a bookkeeping field is written by every other mutator of that state (no stale memo)", floor=1)
     derived_fields(ctx, 'R05.7')
@@ -339,6 +344,29 @@ def thorough_rules(ctx):
                 others = sorted(p_ for p_ in s_['mut'] if p_ != sn)
                 ctx.inst('R05.1c', m, '%s.%s' % (c, name), not others,
                          "only self is written" if not others else "with receiver %s, %s may mutate %s" % (c, m.qual, others))
+
+
+def canonical_order(ctx, rid):
+    """Keys are stored in one canonical order for every mix of label types: each sort of labels inside a squash_key
+    implementation uses key=ordering_key (plain comparison orders 1 < 2.5 but fails - or is skipped - once a str joins)."""
+    P = ctx.prog
+    n = 0
+    for c in P.subclasses_of('DictArithmetic'):
+        m = c.methods.get('squash_key')
+        if m is None:
+            continue
+        calls = [x for x in calls_in(m.node) if is_name(x.func, 'sorted') or (isinstance(x.func, ast.Attribute) and x.func.attr == 'sort')]
+        for x in calls:
+            n += 1
+            k = [kw.value for kw in x.keywords if kw.arg == 'key']
+            ok = bool(k) and is_name(k[0], 'ordering_key')
+            ctx.inst(rid, m, x, ok,
+                     "labels sorted with ordering_key" if ok else
+                     "`%s` sorts labels without key=ordering_key: the stored order of a key then depends on which other label "
+                     "types it contains, so equal terms are stored under different keys (and partial keys stop matching)"
+                     % src(x)[:60])
+    if not n:
+        raise AnalysisError("canonical_order: no sort found in any squash_key")
 
 
 def imul_rules(ctx, rid):
